@@ -97,3 +97,17 @@ def _ragged_key_groupby(viol, scenario):
     case = scenario.get("case") or {}
     return (viol.oracle == "stream_eq_memory" and viol.kind == "groupby.groupby_chromosome_strkey:raises"
             and case.get("op") == "groupby_chromosome_strkey" and "TypeError" in str(viol.detail.get("error", "")))
+
+
+@predicate("typed_info_eager_write_unsupported")
+def _typed_info_eager_write(viol, scenario):
+    """KF-C05-typed-info-eager-write-unsupported: an eagerly read VCF whose header declares INFO keys has a table-valued
+    info column that the writer has no serialiser for (KeyError), the lazily read twin passes its source bytes through."""
+    f = scenario.get("file") or {}
+    d = viol.detail
+    if f.get("format") != "vcfinfo" or viol.oracle != "twin":
+        return False
+    eager = str(d.get("eager_result", "")).strip('"')
+    lazy = str(d.get("lazy_result", "")).strip('"')
+    return (viol.kind in ("vcfinfo.write.one_fails", "vcfinfo.final_write.differs")
+            and eager.startswith("Raised:KeyError") and not lazy.startswith("Raised"))
